@@ -1,6 +1,7 @@
 package sys
 
 import (
+	"bufio"
 	"bytes"
 	"context"
 	"fmt"
@@ -354,6 +355,50 @@ func TestC07Tunnel(t *testing.T) {
 		entry := cl.Nodes[c.Pick("entry", 2)]
 		if !WaitRoutable(cl.Nodes[1], cl.Nodes[0], "t1", Deadline()) {
 			Missf(c, "C07: endpoint did not propagate")
+		}
+		// a handshake that fails after the proxy has picked (and opened a connection
+		// to) an upstream: the refusal is the whole answer for the client, and the leg
+		// towards the upstream must be released just as after a completed tunnel
+		if !slowSink && !reset && c.Chance("failedHandshakeFirst", 1, 5) {
+			how := c.OneOf("badHandshake", "version-8", "no-key", "no-upgrade-header", "post")
+			c.Class("failed-handshake-" + how)
+			c.NonTrivial()
+			method := "GET"
+			hdr := "Connection: Upgrade\r\nUpgrade: websocket\r\nSec-WebSocket-Version: 13\r\nSec-WebSocket-Key: dGhlIHNhbXBsZSBub25jZQ==\r\n"
+			switch how {
+			case "version-8":
+				hdr = "Connection: Upgrade\r\nUpgrade: websocket\r\nSec-WebSocket-Version: 8\r\nSec-WebSocket-Key: dGhlIHNhbXBsZSBub25jZQ==\r\n"
+			case "no-key":
+				hdr = "Connection: Upgrade\r\nUpgrade: websocket\r\nSec-WebSocket-Version: 13\r\n"
+			case "no-upgrade-header":
+				hdr = ""
+			case "post":
+				method = "POST"
+				hdr += "Content-Length: 0\r\n"
+			}
+			c.Stepf("failed handshake (%s) at %s before the real tunnel", how, entry.ID)
+			raw, err := net.DialTimeout("tcp", entry.ProxyAddr(), Deadline())
+			if err != nil {
+				c.Harnessf("dial proxy: %v", err)
+			}
+			_ = raw.SetDeadline(time.Now().Add(Deadline()))
+			_, _ = fmt.Fprintf(raw, "%s /_piko/v1/tcp/t1 HTTP/1.1\r\nHost: %s\r\n%s\r\n", method, entry.ProxyAddr(), hdr)
+			resp, err := http.ReadResponse(bufio.NewReader(raw), nil)
+			if err != nil {
+				raw.Close()
+				Missf(c, "C07: no answer to a failing tunnel handshake (%s): %v", how, err)
+			}
+			status := resp.StatusCode
+			resp.Body.Close()
+			raw.Close()
+			if status == http.StatusSwitchingProtocols {
+				c.Fatalf("C07: a handshake that is not a valid WebSocket upgrade (%s) was answered 101", how)
+			}
+			if !Eventually(Deadline(), func() bool {
+				return up.TCPClosed.Load() == up.Served.Load() && cl.Nodes[0].Srv.VerifUpstream().VerifOpenStreams() == 0
+			}) {
+				Missf(c, "C07: a tunnel handshake failed (%s, answered %d at %s) but the leg towards the upstream was not released: upstream accepted %d connections, %d ended, server holds %d open streams", how, status, entry.ID, up.Served.Load(), up.TCPClosed.Load(), cl.Nodes[0].Srv.VerifUpstream().VerifOpenStreams())
+			}
 		}
 		via := c.OneOf("client", "dialer", "forwarder")
 		c.Header["upstream"], c.Header["entry"], c.Header["client"], c.Header["bytes"], c.Header["proxy_timeout_ms"] = kind, entry.ID, via, total, proxyTimeout.Milliseconds()
